@@ -1,9 +1,15 @@
 #!/bin/sh
-# tools_seedtest.sh <Cxx> <dir with mutated ppci checkout> [tier]
-# Runs a check against a mutated tree (VERIF_REPO) without touching /repo or the committed evidence.
-id="$1"; tree="$2"; tier="${3:-quick}"
-out=/verif/.work/seedruns/$id-$(basename "$tree"); mkdir -p "$out"
-VERIF_REPO="$tree" VERIF_EVIDENCE_DIR="$out" VERIF_REPLAY_DIR="$out" VERIF_JOBS="${VERIF_JOBS:-8}" ./check "$id" --tier "$tier" > "$out/stdout.txt" 2>&1
+# tools_seedtest.sh <Cxx> <seed-name> [tier]
+# Applies seeded/<name>/patch.diff to a scratch worktree of /repo's current HEAD and runs the check against it
+# (VERIF_REPO), without touching /repo or the committed evidence. The worktree is removed afterwards.
+id="$1"; name="$2"; tier="${3:-quick}"
+wt=/tmp/seedrun-$name-$$
+git -C /repo worktree add -q --detach "$wt" HEAD || exit 3
+if ! git -C "$wt" apply /verif/seeded/$name/patch.diff; then echo "patch does not apply on current HEAD"; git -C /repo worktree remove --force "$wt"; exit 3; fi
+out=/verif/.work/seedruns/$id-seed-$name; mkdir -p "$out"
+VERIF_REPO="$wt" VERIF_EVIDENCE_DIR="$out" VERIF_REPLAY_DIR="$out" VERIF_JOBS="${VERIF_JOBS:-8}" ./check "$id" --tier "$tier" > "$out/stdout.txt" 2>&1
 rc=$?
-echo "seedtest $id on $tree: exit $rc"; grep -v "^WARNING" "$out/stdout.txt" | cut -c1-220 | head -6
+git -C /repo worktree remove --force "$wt"
+echo "seedtest $id on seeded/$name: exit $rc"; grep -v "^WARNING" "$out/stdout.txt" | cut -c1-220 | head -4
+./tools_seedrecord.py "$id" "$name"
 exit $rc
